@@ -49,30 +49,53 @@ sys.path.insert(0, os.path.dirname(os.path.abspath(__file__)))
 import gen_tables as G  # noqa: E402
 
 FS = frozenset
-EMPTY = (FS(), FS())
+# A taint is (D, C, CC), three sets of origins (parameter positions):
+#   D   the value may BE an object that existed before the call: the parameter or anything
+#       reachable from it (level 0);
+#   C   a new object whose ITEMS may be level-0 objects (level 1: list(p), p[::], [p, q]);
+#   CC  a new object of new objects ... at least two levels before a level-0 object is
+#       reached (list(map(list, p)), [[x] for x in p]); deeper nesting is collapsed into CC.
+# Only a mutation site on D counts.  Every operation below over-approximates D.
+EMPTY = (FS(), FS(), FS())
 
 
 def join(a, b):
-    return (a[0] | b[0], a[1] | b[1])
+    return (a[0] | b[0], a[1] | b[1], a[2] | b[2])
 
 
 def allof(t):
-    return t[0] | t[1]
+    return t[0] | t[1] | t[2]
 
 
 def elems(t):
-    """an item taken out of t"""
-    return (t[0] | t[1], FS())
+    """an item taken out of t (CC is collapsed, so it stays)"""
+    return (t[0] | t[1], t[2], t[2])
+
+
+def reach(t):
+    """t or anything reachable from it"""
+    return (t[0] | t[1] | t[2], t[1] | t[2], t[2])
+
+
+def wrap(t):
+    """a new container one of whose items is t"""
+    return (FS(), t[0], t[1] | t[2])
+
+
+def shallow(t):
+    """a new container with the items of t (list(t), t[::], t + u)"""
+    return (FS(), t[0] | t[1], t[2])
 
 
 def fresh(t):
-    """a new object that may hold what t is / holds"""
-    return (FS(), t[0] | t[1])
+    """a new object that may hold, at any depth, what t is / holds"""
+    u = t[0] | t[1] | t[2]
+    return (FS(), u, u)
 
 
 def both(t):
-    u = t[0] | t[1]
-    return (u, u)
+    u = t[0] | t[1] | t[2]
+    return (u, u, u)
 
 
 MUTATING_METHODS = {
@@ -100,6 +123,10 @@ FRESH_CALLS = {
     "list", "tuple", "sorted", "reversed", "map", "filter", "zip", "enumerate", "set", "frozenset", "dict", "iter",
     "LazyList", "slice", "bytes", "bytearray", "object", "Context", "lazylist",
 }
+# of these, the ones whose result has exactly the items of their (last) argument
+SHALLOW_CALLS = {"list", "tuple", "sorted", "reversed", "set", "frozenset", "iter", "LazyList", "filter"}
+# map(f, x) for these f: every item is copied one level
+COPYING_FUNCS = {"list", "tuple", "sorted", "reversed", "set", "frozenset"}
 SCALAR_CALLS = {
     "len", "isinstance", "issubclass", "type", "int", "str", "bool", "float", "complex", "abs", "ord", "chr", "repr",
     "callable", "hash", "range", "any", "all", "round", "divmod", "pow", "print", "input", "id", "bin", "hex", "oct",
@@ -147,11 +174,13 @@ class FnInfo:
             self.params.append(a.kwarg.arg)
         self.ret_direct = set()
         self.ret_contains = set()
+        self.ret_nested = set()
         self.sites = {}                 # (line, col, kind) -> site dict
         self.calls = set()              # (origin, callee qual, pos)
         self.dyncalls = 0
         self.notes = []
         self.unknown_methods = set()
+        self.ctx_inplace = set()
 
 
 class Analyser:
@@ -181,16 +210,43 @@ class Analyser:
             self.env[name] = t
 
     def absorb(self, expr, t):
-        """the container `expr` denotes now also holds t"""
+        """the container `expr` denotes now also holds t: t becomes reachable from the root
+        name one level further down than `expr` is"""
         n = expr
+        depth = 0
         while isinstance(n, (ast.Subscript, ast.Attribute, ast.Starred)):
             n = n.value
+            depth += 1
         if isinstance(n, ast.Name):
             cur = self.env.get(n.id, EMPTY)
-            self.env[n.id] = (cur[0], cur[1] | allof(t))
+            add = wrap(t) if depth == 0 else (FS(), FS(), allof(t))
+            self.env[n.id] = (cur[0], cur[1] | add[1], cur[2] | add[2])
 
     # ---- recording -----------------------------------------------------------------
-    def site(self, node, kind, origins, benign=False):
+    def ctx_attr(self, expr):
+        """`ctx.X` at the root of the mutated expression: the context attribute whose OBJECT is
+        changed in place (None when the expression is `ctx` itself: a rebinding of ctx.X)"""
+        n = expr
+        last = None
+        while True:
+            if isinstance(n, ast.Attribute):
+                last = n.attr
+                n = n.value
+            elif isinstance(n, (ast.Subscript, ast.Starred)):
+                n = n.value
+            elif isinstance(n, ast.Call):
+                n = n.func
+            else:
+                break
+        if isinstance(n, ast.Name) and n.id == "ctx":
+            return last
+        return None
+
+    def site(self, node, kind, origins, benign=False, target=None):
+        if target is not None:
+            a = self.ctx_attr(target)
+            if a is not None:
+                self.info.ctx_inplace.add(a)
         if not origins:
             return
         if self.cache_self and self.info.node.name == "__init__" and set(origins) <= {0}:
@@ -211,14 +267,14 @@ class Analyser:
             self.info.calls.add((o, callee.qual, pos))
 
     def ret(self, t, is_yield=False):
+        if is_yield:
+            t = wrap(t)               # the generator object holds what it yields
         if self.ret_stack:
             cur = self.nested[self.ret_stack[-1]]
-            cur["ret"] = join(cur["ret"], fresh(t) if is_yield else t)
-        if is_yield:
-            self.info.ret_contains |= allof(t)
-        else:
-            self.info.ret_direct |= t[0]
-            self.info.ret_contains |= t[1]
+            cur["ret"] = join(cur["ret"], t)
+        self.info.ret_direct |= t[0]
+        self.info.ret_contains |= t[1]
+        self.info.ret_nested |= t[2]
 
     # ---- expressions ---------------------------------------------------------------
     def ev(self, n):
@@ -267,7 +323,7 @@ class Analyser:
         return EMPTY
 
     def ev_BinOp(self, n):
-        return fresh(join(self.ev(n.left), self.ev(n.right)))
+        return shallow(join(self.ev(n.left), self.ev(n.right)))
 
     def ev_BoolOp(self, n):
         t = EMPTY
@@ -292,7 +348,7 @@ class Analyser:
         base = self.ev(n.value)
         self.ev(n.slice)
         if isinstance(n.slice, ast.Slice):
-            return fresh(base)
+            return shallow(base)
         return elems(base)
 
     def ev_Attribute(self, n):
@@ -306,9 +362,11 @@ class Analyser:
     def _display(self, items):
         t = EMPTY
         for x in items:
-            if x is not None:
+            if isinstance(x, ast.Starred):
+                t = join(t, elems(self.ev(x.value)))
+            elif x is not None:
                 t = join(t, self.ev(x))
-        return fresh(t)
+        return wrap(t)
 
     def ev_Tuple(self, n):
         return self._display(n.elts)
@@ -330,18 +388,18 @@ class Analyser:
 
     def ev_ListComp(self, n):
         self._generators(n.generators)
-        return fresh(self.ev(n.elt))
+        return wrap(self.ev(n.elt))
 
     ev_SetComp = ev_ListComp
     ev_GeneratorExp = ev_ListComp
 
     def ev_DictComp(self, n):
         self._generators(n.generators)
-        return fresh(join(self.ev(n.key), self.ev(n.value)))
+        return wrap(join(self.ev(n.key), self.ev(n.value)))
 
     def ev_Yield(self, n):
         self.ret(self.ev(n.value), is_yield=True)
-        return both((self.all, FS()))        # what send() delivers: unknown
+        return (self.all, self.all, self.all)        # what send() delivers: unknown
 
     def ev_YieldFrom(self, n):
         self.ret(elems(self.ev(n.value)), is_yield=True)
@@ -369,7 +427,7 @@ class Analyser:
             self.env = dict(self.env_fi if self.env_fi is not None else self.env)
         self.weak += 1
         for nm in names:
-            self.assign(nm, (self.all, self.all))
+            self.assign(nm, (self.all, self.all, self.all))
         t = self.ev(n.body)
         t = join(t, self.ev(n.body))
         self.weak -= 1
@@ -419,7 +477,7 @@ class Analyser:
             name = f.id
             if name in self.nested and name in self.env:
                 r = self.nested[name]["ret"]
-                return fresh(r) if self.nested[name]["decorated"] else r
+                return join(r, shallow(r)) if self.nested[name]["decorated"] else r
             if name in self.env:
                 # a function value held in a variable / parameter (user lambda, element passed in)
                 self.info.dyncalls += 1
@@ -433,8 +491,21 @@ class Analyser:
                     for kw, t in kwt:
                         if kw in g.params:
                             self.edge(g, g.params.index(kw), allof(t))
-                    return (FS([0]), FS([0]))
+                    return (FS([0]), FS([0]), FS())
                 return self.module_call(g, argt, kwt, n)
+            if name in SHALLOW_CALLS and argt and not kwt:
+                return shallow(argt[-1][1])
+            if name == "map" and len(n.args) >= 2 and isinstance(n.args[0], ast.Name) and n.args[0].id not in self.env \
+                    and self.w.resolve(self.info.module, n.args[0].id) is None:
+                rest = EMPTY
+                for _, t in argt[1:]:
+                    rest = join(rest, t)
+                if n.args[0].id in COPYING_FUNCS:
+                    return wrap(shallow(elems(rest)))
+                if n.args[0].id in SCALAR_CALLS:
+                    return EMPTY
+            if name in ("zip", "enumerate"):
+                return wrap(wrap(elems(everything)))
             if name in FRESH_CALLS:
                 return fresh(everything)
             if name in SCALAR_CALLS:
@@ -443,7 +514,7 @@ class Analyser:
                 return both(everything)
             if name in ("setattr", "delattr"):
                 if argt:
-                    self.site(n, name, argt[0][1][0])
+                    self.site(n, name, argt[0][1][0], target=n.args[0] if n.args and not isinstance(n.args[0], ast.Starred) else None)
                 return EMPTY
             self.info.notes.append(f"call of unknown name {name}")
             return both(everything)
@@ -462,7 +533,9 @@ class Analyser:
                         return self.module_call(g, argt, kwt, n)
                 key = (root.id, meth)
                 if key in MUT_EXTERNAL and MUT_EXTERNAL[key] is not None and len(argt) > MUT_EXTERNAL[key]:
-                    self.site(n, f"{root.id}.{meth}", argt[MUT_EXTERNAL[key]][1][0])
+                    a0 = n.args[MUT_EXTERNAL[key]]
+                    self.site(n, f"{root.id}.{meth}", argt[MUT_EXTERNAL[key]][1][0],
+                              target=None if isinstance(a0, ast.Starred) else a0)
                 if key in ITEM_EXTERNAL:
                     return both(everything)
                 return fresh(everything)
@@ -470,9 +543,9 @@ class Analyser:
             if meth in MUTATING_METHODS:
                 benign = (self.cache_self and meth == "append" and isinstance(recv, ast.Attribute) and recv.attr == "generated"
                           and isinstance(recv.value, ast.Name) and recv.value.id == "self")
-                self.site(n, "cache-append" if benign else "method:" + meth, r[0], benign=benign)
+                self.site(n, "cache-append" if benign else "method:" + meth, r[0], benign=benign, target=recv)
                 if meth in ABSORBS:
-                    self.absorb(recv, everything)
+                    self.absorb(recv, elems(everything) if meth in ("extend", "update", "extendleft", "__iadd__") else everything)
                 return elems(r) if meth in RETURNS_ITEM else EMPTY
             lz = self.w.lazy_methods.get(meth)
             if lz is not None and meth not in ("count", "index"):
@@ -486,11 +559,13 @@ class Analyser:
             if meth in PURE_METHODS:
                 if meth in ITEM_PURE:
                     return both(join(r, everything))
+                if meth == "copy" and not argt:
+                    return shallow(r)
                 return fresh(join(r, everything))
             # unknown method: fail-closed on a tainted receiver
             if r[0]:
                 self.info.unknown_methods.add(meth)
-                self.site(n, "unknown-method:" + meth, r[0])
+                self.site(n, "unknown-method:" + meth, r[0], target=recv)
             return both(join(r, everything))
 
         # any other callee expression
@@ -510,7 +585,7 @@ class Analyser:
             if j < g.npos:
                 per[j] = join(per.get(j, EMPTY), t)
             elif g.vararg is not None:
-                per[g.vararg] = join(per.get(g.vararg, EMPTY), fresh(t))
+                per[g.vararg] = join(per.get(g.vararg, EMPTY), wrap(t))
             elif allof(t):
                 self.site(node, "call-arity", allof(t))   # more arguments than parameters: fail-closed
             j += 1
@@ -522,16 +597,20 @@ class Analyser:
                 p = g.params.index(kw)
                 per[p] = join(per.get(p, EMPTY), t)
             elif g.kwarg is not None:
-                per[g.kwarg] = join(per.get(g.kwarg, EMPTY), fresh(t))
+                per[g.kwarg] = join(per.get(g.kwarg, EMPTY), wrap(t))
             elif allof(t):
                 self.site(node, "call-keyword", allof(t))
         res = EMPTY
         for p, t in per.items():
             self.edge(g, p, allof(t))
+            # what the callee calls "parameter p or reachable from it" is, here, t or anything
+            # reachable from t
             if p in g.ret_direct:
-                res = join(res, t)
+                res = join(res, reach(t))
             if p in g.ret_contains:
-                res = join(res, fresh(t))
+                res = join(res, wrap(reach(t)))
+            if p in g.ret_nested:
+                res = join(res, (FS(), FS(), allof(t)))
         return res
 
     # ---- statements ------------------------------------------------------------------
@@ -547,21 +626,21 @@ class Analyser:
             else:
                 for e in tgt.elts:
                     if isinstance(e, ast.Starred):
-                        self.bind(e.value, fresh(t), None)
+                        self.bind(e.value, shallow(t), None)
                     else:
                         self.bind(e, elems(t), None)
         elif isinstance(tgt, ast.Subscript):
             base = self.ev(tgt.value)
             self.ev(tgt.slice)
-            self.site(tgt, "store", base[0])
+            self.site(tgt, "store", base[0], target=tgt.value)
             self.absorb(tgt.value, t)
         elif isinstance(tgt, ast.Attribute):
             base = self.ev(tgt.value)
             if not (self.cache_self and self.info.node.name == "__init__"):
-                self.site(tgt, "attr-store", base[0])
+                self.site(tgt, "attr-store", base[0], target=tgt.value)
             self.absorb(tgt.value, t)
         elif isinstance(tgt, ast.Starred):
-            self.bind(tgt.value, fresh(t), None)
+            self.bind(tgt.value, shallow(t), None)
         else:
             self.site(tgt, "unsupported-target", self.all)
 
@@ -604,12 +683,12 @@ class Analyser:
                     and not isinstance(s.value.value, bool)
                 if isinstance(s.op, ast.Mult) or (isinstance(s.op, ast.Add) and not numeric):
                     self.site(s, "augassign", cur[0])
-                self.env[s.target.id] = (cur[0], cur[1] | allof(tv))
+                self.env[s.target.id] = (cur[0], cur[1] | tv[0] | tv[1], cur[2] | tv[2])
             elif isinstance(s.target, (ast.Subscript, ast.Attribute)):
                 base = self.ev(s.target.value)
                 if isinstance(s.target, ast.Subscript):
                     self.ev(s.target.slice)
-                self.site(s.target, "store", base[0])
+                self.site(s.target, "store", base[0], target=s.target.value)
                 self.absorb(s.target.value, tv)
             else:
                 self.site(s, "unsupported-target", self.all)
@@ -657,7 +736,7 @@ class Analyser:
             for tgt in s.targets:
                 if isinstance(tgt, (ast.Subscript, ast.Attribute)):
                     base = self.ev(tgt.value)
-                    self.site(tgt, "del", base[0])
+                    self.site(tgt, "del", base[0], target=tgt.value)
                 elif isinstance(tgt, ast.Name):
                     pass
         elif isinstance(s, ast.Assert):
@@ -691,7 +770,7 @@ class Analyser:
         self.weak += 1
         self.ret_stack.append(s.name)
         for nm in names:
-            self.assign(nm, (self.all, self.all))
+            self.assign(nm, (self.all, self.all, self.all))
         for _ in range(3):
             self.block(s.body)
         self.ret_stack.pop()
@@ -720,7 +799,8 @@ class Analyser:
         # pass 1 under the coarser environment are discarded
         self.info.sites.clear()
         self.info.calls.clear()
-        self.info.ret_direct, self.info.ret_contains = set(), set()
+        self.info.ret_direct, self.info.ret_contains, self.info.ret_nested = set(), set(), set()
+        self.info.ctx_inplace.clear()
         self.fi_mode = False
         self.env = init
         for _ in range(3):       # nested return facts feed calls made before the def is re-read
@@ -769,11 +849,12 @@ class World:
         return None
 
     def analyse_fn(self, fi):
-        env = {p: (FS([i]), FS()) for i, p in enumerate(fi.params)}
+        env = {p: (FS([i]), FS(), FS()) for i, p in enumerate(fi.params)}
         fi.sites, fi.calls = {}, set()
-        old = (set(fi.ret_direct), set(fi.ret_contains))
-        fi.ret_direct, fi.ret_contains = set(), set()
+        old = (set(fi.ret_direct), set(fi.ret_contains), set(fi.ret_nested))
+        fi.ret_direct, fi.ret_contains, fi.ret_nested = set(), set(), set()
         fi.notes, fi.dyncalls = [], 0
+        fi.ctx_inplace = set()
         a = Analyser(self, fi, env, range(len(fi.params)))
         try:
             a.run(fi.node.body)
@@ -786,7 +867,8 @@ class World:
         # the facts other functions rely on only grow
         fi.ret_direct |= old[0]
         fi.ret_contains |= old[1]
-        return (fi.ret_direct, fi.ret_contains) != old
+        fi.ret_nested |= old[2]
+        return (fi.ret_direct, fi.ret_contains, fi.ret_nested) != old
 
     def analyse_all(self):
         for rnd in range(12):
@@ -804,11 +886,11 @@ class World:
         fi.node = ast.parse("def _t(stack, ctx, function): pass").body[0]
         fi.params = ["stack", "ctx", "function"]
         fi.npos, fi.vararg, fi.kwarg, fi.kwonly_from = 3, None, None, 3
-        fi.ret_direct, fi.ret_contains, fi.sites, fi.calls = set(), set(), {}, set()
-        fi.dyncalls, fi.notes, fi.unknown_methods = 0, [], set()
-        env = {"stack": (FS(), FS([0])), "ctx": (FS([1]), FS())}
+        fi.ret_direct, fi.ret_contains, fi.ret_nested, fi.sites, fi.calls = set(), set(), set(), {}, set()
+        fi.dyncalls, fi.notes, fi.unknown_methods, fi.ctx_inplace = 0, [], set(), set()
+        env = {"stack": (FS(), FS([0]), FS([0])), "ctx": (FS([1]), FS(), FS())}
         for nm in ("function_A", "function_B", "function_C", "function_D"):
-            env[nm] = (FS([2]), FS())
+            env[nm] = (FS([2]), FS(), FS())
         try:
             body = ast.parse(text).body
             Analyser(self, fi, env, range(3), template=True).run(body)
@@ -862,7 +944,8 @@ def build(repo):
                    "calls": sorted({node_id[(c, p)] for (o, c, p) in fi.calls if o in (0, 2) and (c, p) in node_id}),
                    "ctx_calls": sorted({node_id[(c, p)] for (o, c, p) in fi.calls if o == 1 and (c, p) in node_id}),
                    "sites": [site_json(s) for s in fi.sites.values()], "notes": fi.notes,
-                   "pushes": push_shape(e["text"])}
+                   "pushes": push_shape(e["text"]), "ctx_inplace": sorted(fi.ctx_inplace),
+                   "ctx_pushes": [list(x) for x in ctx_pushes(e["text"])]}
             tmpl.append(rec)
     fns = {}
     for fi in w.fns:
@@ -872,8 +955,16 @@ def build(repo):
             "sites": [site_json(s) for s in sorted(fi.sites.values(), key=lambda s: s["line"])],
             "calls": sorted([o, c, p] for (o, c, p) in fi.calls),
             "dyncalls": fi.dyncalls, "notes": fi.notes, "unknown_methods": sorted(fi.unknown_methods),
+            "ctx_inplace": sorted(fi.ctx_inplace),
         }
-    return {"nodes": nodes, "templates": tmpl, "functions": fns, "rounds": rounds}
+    inplace = {}
+    for name, d in fns.items():
+        for a in d["ctx_inplace"]:
+            inplace.setdefault(a, []).append(name)
+    for t in tmpl:
+        for a in t["ctx_inplace"]:
+            inplace.setdefault(a, []).append(f"{t['kind']} {t['key']}")
+    return {"nodes": nodes, "templates": tmpl, "functions": fns, "rounds": rounds, "ctx_inplace": inplace}
 
 
 def push_shape(text):
@@ -897,6 +988,47 @@ def push_shape(text):
             else:
                 other += 1
     return {"bare": bare, "copied": copied, "other": other}
+
+
+MATERIALISERS = {"list", "tuple", "sorted"}
+
+
+def ctx_pushes(text):
+    """Pushes of a context attribute: for every `ctx.X` inside the argument of stack.append /
+    stack.extend / `stack +=` that is pushed as a whole (not `ctx.X.pop()`, not `ctx.X[i]`):
+    (X, materialised) where materialised = the occurrence sits under list(...) / tuple(...) /
+    sorted(...), i.e. the pushed value is a new eager object made at push time, not the
+    attribute's own object and not a lazy view of it (deep_copy alone)."""
+    try:
+        tree = ast.parse(text)
+    except SyntaxError:
+        return []
+    out = []
+
+    def scan(e, under):
+        if isinstance(e, ast.Attribute) and isinstance(e.value, ast.Name) and e.value.id == "ctx":
+            out.append((e.attr, under))
+            return
+        if isinstance(e, ast.Attribute):
+            # ctx.X.method / ctx.X.attr: an item or a part, not the attribute's value as a whole
+            if isinstance(e.value, ast.Attribute) and isinstance(e.value.value, ast.Name) and e.value.value.id == "ctx":
+                return
+        if isinstance(e, ast.Subscript) and isinstance(e.value, ast.Attribute) and isinstance(e.value.value, ast.Name) \
+                and e.value.value.id == "ctx" and not isinstance(e.slice, ast.Slice):
+            scan(e.slice, under)
+            return
+        u = under or (isinstance(e, ast.Call) and isinstance(e.func, ast.Name) and e.func.id in MATERIALISERS)
+        for c in ast.iter_child_nodes(e):
+            scan(c, u)
+
+    for n in ast.walk(tree):
+        if (isinstance(n, ast.Call) and isinstance(n.func, ast.Attribute) and n.func.attr in ("append", "extend", "insert")
+                and isinstance(n.func.value, ast.Name) and n.func.value.id == "stack"):
+            for a in n.args:
+                scan(a, False)
+        elif isinstance(n, ast.AugAssign) and isinstance(n.target, ast.Name) and n.target.id == "stack":
+            scan(n.value, False)
+    return out
 
 
 def site_json(s):
@@ -1000,6 +1132,18 @@ def emit(an):
         if t["kind"] == "element" and t["pushes"] is not None and (t["pushes"]["copied"] or t["key"] in (":", "D", "Ḃ", "¾")):
             rows.append("{| dt_key := %s; dt_bare := %d; dt_copied := %d |}" % (G.cstr(t["key"]), t["pushes"]["bare"], t["pushes"]["copied"]))
     s += "Definition dup_templates : list dtempl :=\n  " + G.clist(rows) + ".\n"
+    s += ("(* context attributes whose OBJECT some template or function changes in place\n"
+          "   (ctx.X.append / .pop / ctx.X[i] = ...; a rebinding `ctx.X = ...` does not count), with who does it *)\n")
+    rows = []
+    for a in sorted(an["ctx_inplace"]):
+        rows.append("(* %s *) %s" % ("; ".join(an["ctx_inplace"][a])[:160].replace("*)", "* )"), G.cstr(a)))
+    s += "Definition ctx_inplace_attrs : list str :=\n  " + G.clist(rows, "str") + ".\n"
+    s += "(* every push of a context attribute as a whole: template, attribute, pushed under list()/tuple()/sorted() *)\n"
+    rows = []
+    for t in an["templates"]:
+        for attr, mat in t["ctx_pushes"]:
+            rows.append("{| cp_key := %s; cp_attr := %s; cp_materialised := %s |}" % (G.cstr(t["key"]), G.cstr(attr), G.cbool(mat)))
+    s += "Definition ctx_pushes : list cpush :=\n  " + G.clist(rows, "cpush") + ".\n"
     return s
 
 
@@ -1010,7 +1154,8 @@ FAILED = ("(* GENERATED by tools/gen_mutation.py: the translator FAILED (%s). *)
           "Definition mutation_translator_ok : bool := false.\n"
           "Definition mut_nodes : list mnode := [].\n"
           "Definition mut_elements : list mtempl := [].\nDefinition mut_modifiers : list mtempl := [].\n"
-          "Definition dup_templates : list dtempl := [].\n")
+          "Definition dup_templates : list dtempl := [].\n"
+          "Definition ctx_inplace_attrs : list str := [].\nDefinition ctx_pushes : list cpush := [].\n")
 
 
 def generate(repo, outdir):
@@ -1047,6 +1192,8 @@ if __name__ == "__main__":
     print("flagged elements:", " ".join(an["flagged_elements"]))
     print("flagged modifiers:", " ".join(an["flagged_modifiers"]))
     print("ctx mutators:", len(an["ctx_mutators"]))
+    print("ctx attributes changed in place:", an["ctx_inplace"])
+    print("ctx pushes:", [(t["key"], t["ctx_pushes"]) for t in an["templates"] if t["ctx_pushes"]])
     um = sorted({m for d in an["functions"].values() for m in d["unknown_methods"]})
     print("unknown methods on tainted receivers:", um)
     notes = sorted({n for d in an["functions"].values() for n in d["notes"]})
